@@ -101,23 +101,24 @@ Section FromNetwork.
   Qed.
 End FromNetwork.
 
-(* ------------------------------------------------------------------ the symbol mismatch
-   cli.common.transform_to_after_loop calls limit_seq(e, Symbol("n")); the closed forms of the
-   solvers are expressions in Symbol("n", integer=True).  In sympy two symbols are equal iff
-   name AND assumptions agree.  Model: closed forms a + b * r^n over one symbol; limit_seq
-   with respect to a symbol the expression does not contain returns the expression unchanged. *)
+(* ------------------------------------------------------------------ the after-loop limit
+   cli.common.transform_to_after_loop calls limit_seq(e, Symbol("n", integer=True)) (repaired, /repo 6cf1f48);
+   the closed forms of the solvers are expressions in Symbol("n", integer=True).  In sympy two symbols
+   are equal iff name AND assumptions agree.  Model: closed forms a + b * r^n over one symbol;
+   limit_seq with respect to a symbol the expression does not contain returns the expression
+   unchanged.  The OLD rule used the plain Symbol("n") and is kept only as transform_to_after_loop_old_rule. *)
 Record sym := { sy_name : string; sy_integer : bool }.
 Definition sym_eqb (x y : sym) : bool := String.eqb (sy_name x) (sy_name y) && Bool.eqb (sy_integer x) (sy_integer y).
 Record geo := { g_a : Qc; g_b : Qc; g_r : Qc; g_sym : sym }.           (* a + b * r^n *)
 Definition geo_eval (e : geo) (n : nat) : Qc := (g_a e + g_b e * qpow (g_r e) n)%Qc.
 Inductive lim_result := LConst (c : Qc) | LExpr (e : geo).
-(* limit_seq(e, s): if e does not contain s it is constant with respect to s *)
+(* limit_seq(e, s) for |r| < 1: if e does not contain s it is constant with respect to s *)
 Definition limit_seq_model (e : geo) (s : sym) : lim_result :=
   if sym_eqb (g_sym e) s then LConst (g_a e) else LExpr e.
 Definition n_plain : sym := {| sy_name := "n"; sy_integer := false |}.
 Definition n_integer : sym := {| sy_name := "n"; sy_integer := true |}.
-Definition transform_to_after_loop_model (e : geo) : lim_result := limit_seq_model e n_plain.
-Definition transform_fixed_model (e : geo) : lim_result := limit_seq_model e n_integer.
+Definition transform_to_after_loop_model (e : geo) : lim_result := limit_seq_model e n_integer.
+Definition transform_to_after_loop_old_rule (e : geo) : lim_result := limit_seq_model e n_plain.
 
 (* E[count]_n of a sampling-time query with evidence probability q, as the solver returns it *)
 Definition count_closed_form (q : Qc) : geo :=
@@ -132,12 +133,16 @@ Proof.
   rewrite E. field. exact Hq.
 Qed.
 
-(* the statement the action relies on — "transform_to_after_loop returns the limit" — is false
-   for the model that treats symbols as sympy does: the result is still the n-dependent form *)
-Theorem after_loop_symbol_refuted :
+(* the repaired rule returns the limit 1/q of the sampling-time closed form, for every q *)
+Theorem after_loop_takes_limit :
+  forall q : Qc, transform_to_after_loop_model (count_closed_form q) = LConst (1 / q)%Qc.
+Proof. intros q. reflexivity. Qed.
+
+(* "transform_to_after_loop returns the limit" was false for the OLD rule (plain symbol n): the
+   result was still the n-dependent closed form *)
+Theorem after_loop_symbol_old_rule_refuted :
   exists q : Qc, (0 < q)%Qc /\ (q <= 1)%Qc /\
-    transform_to_after_loop_model (count_closed_form q) = LExpr (count_closed_form q) /\
-    transform_fixed_model (count_closed_form q) = LConst (1 / q)%Qc /\
+    transform_to_after_loop_old_rule (count_closed_form q) = LExpr (count_closed_form q) /\
     geo_eval (count_closed_form q) 0 <> (1 / q)%Qc.
 Proof.
   exists (mkq 1 2). repeat split; try reflexivity; try (vm_compute; discriminate).
